@@ -157,7 +157,13 @@ func main() {
 				}
 				desc := fmt.Sprintf("tree=%v filter=%s recursive=%v", chosen, flt.name, recursive)
 				rp := map[string]any{"tree": chosen, "filter": flt.name, "recursive": recursive}
-				if err := files.ZipFolder(src, zf, flt.f, recursive); err != nil {
+				trailing := (mask+fi)%2 == 0
+				srcArg := src
+				if trailing {
+					srcArg = src + string(filepath.Separator) // the same directory, spelled with a trailing separator
+				}
+				desc += fmt.Sprintf(" srcDirTrailingSlash=%v", trailing)
+				if err := files.ZipFolder(srcArg, zf, flt.f, recursive); err != nil {
 					fail("roundtrip zip-error", desc+": ZipFolder: "+err.Error(), rp)
 					os.RemoveAll(base)
 					continue
@@ -169,7 +175,7 @@ func main() {
 				}
 				got := files_(snapshot(dst))
 				if fmt.Sprint(keys(got)) != fmt.Sprint(keys(expect)) {
-					fail(fmt.Sprintf("roundtrip file-set filter=%d recursive=%v", fi, recursive), fmt.Sprintf("%s: extracted %v, expected %v", desc, keys(got), keys(expect)), rp)
+					fail(fmt.Sprintf("roundtrip file-set filter=%d recursive=%v trailing-slash=%v", fi, recursive, trailing), fmt.Sprintf("%s: extracted %v, expected %v", desc, keys(got), keys(expect)), rp)
 				} else {
 					for k, v := range expect {
 						if got[k] != v {
